@@ -18,6 +18,25 @@ CHECKS = {
             'product states; predefined models (by reflection) must be Hermitian with agreeing representations.',
             'C19 and C12; Hilbert-space dimension <= 1100; explicit_plus_hc models are generated Hermitian as documented',
             'DESIGN.md §C10'),
+    'C11': ('exploration', 'dense matrix of every MPO obtained by the harness contraction of the W tensors (IdL/IdR) compared with the '
+            'dense result of the same operation on matrices; step-size family for make_U order',
+            'Random MPOs from term lists, grids and models (finite and infinite windows): addition, prefactor, dagger, is_hermitian, '
+            'is_equal, to_TermList round trip, sort_legcharges, group_sites, expectation_value / variance / '
+            'expectation_value_power, apply (zip_up, SVD, variational) on entangled MPS, MPOEnvironment contractions at every '
+            'bond, make_U_I / make_U_II against the dense exponential over a family of time steps (error must shrink at second '
+            'order or better), MPO.distance.',
+            'both make_U_I and make_U_II have a single-step error O(dt^2); slopes >= 1.5 are demanded', 'DESIGN.md §C11'),
+    'C13': ('exploration', 'per-update monitor on update_local (logged energy vs dense <H> of the state just written, energy '
+            'monotonicity) plus dense eigen-decomposition of the same Hamiltonian as oracle for the returned state',
+            'Random Hermitian models (complex couplings, longer range, fermions, random fields) on chains of 3-8 sites x engines '
+            '(two-site / single-site DMRG) x mixers x diag_method x chi_list x sweep counts x combine: returned state '
+            'normalised, canonical, in the start sector, reported energy equals <H> within the reported truncation, never below '
+            'the exact sector minimum; untruncated two-site DMRG with a mixer reaches the minimum of the H-invariant subspace; '
+            'EffectiveH.to_matrix equals matvec in a fresh environment; orthogonal_to yields an orthogonal state above lambda_1; '
+            'VUMPS on infinite Ising chains against the exact energy density.',
+            'convergence is judged only where the nearest-neighbour terms connect the invariant subspace and a random field breaks '
+            'hidden symmetries (elsewhere a stuck local optimisation is a limit of the algorithm); orthogonal_to is judged only for '
+            'negative target energies (documented limitation)', 'DESIGN.md §C13'),
     'C12': ('exploration', 'dense operator identities evaluated on every configuration of the (finite, exhaustively enumerated) '
             'site-option grid; kron/JW reference for grouped sites; explicit Jordan-Wigner matrices for many-body CAR',
             'Every site class x parameters x conserve option x sort_charge: operators mapped through perm equal the textbook '
